@@ -187,3 +187,31 @@ func Verif_C13_tuples_handover() {
 	vs.Assert("nothing is left in either tracker", len(oldCore.getUdpConnStateTracker().entries) == 0 && len(newCore.getUdpConnStateTracker().entries) == 0)
 	vs.Assert("once the last owner has gone the kernel entry is gone", !k.present[k1])
 }
+
+// Verif_C13_overflow: a burst for one flow larger than the per-flow channel (128) while the worker
+// has not run yet: the surplus goes through the overflow FIFO (including its shrinking while it
+// drains); every task runs exactly once, in the order accepted.
+func Verif_C13_overflow() {
+	n := []int{1, 128, 129, 257, 430}[vs.Choice("burst", 5)]
+	extra := vs.Choice("late", 3) // tasks arriving after the backlog has started to drain
+	p := NewUdpTaskPool()
+	key := UdpFlowKey{Src: netip.MustParseAddrPort("10.0.0.1:1000"), Dst: netip.MustParseAddrPort("8.8.8.8:53")}
+	l := &c13Log{}
+	for i := 0; i < n; i++ {
+		p.EmitTask(key, l.task(i))
+	}
+	vs.Join()
+	for i := 0; i < extra; i++ {
+		p.EmitTask(key, l.task(n+i))
+	}
+	vs.Join()
+	ok := len(l.ran) == n+extra
+	for i := 0; i < len(l.ran) && ok; i++ {
+		ok = l.ran[i] == i
+		if !ok {
+			vs.Note("first out-of-order position " + strconv.Itoa(i) + " holds task " + strconv.Itoa(l.ran[i]))
+		}
+	}
+	vs.Note("ran " + strconv.Itoa(len(l.ran)) + " of " + strconv.Itoa(n+extra))
+	vs.Assert("every task of the burst ran exactly once, in the order accepted", ok)
+}
